@@ -215,7 +215,13 @@ def run_program(ls, rng, fc, mask, nzcv):
     trace = []
     took = False
     stopped_early = False
+    known_code = [(code, code + 2 + len(body)), (code + 0x80, code + 0xA0), (code + 0x100, code + 0x120), (0x4, 0x18)]
     for stepno in range(n + 5):
+        pc_now = ctx.cpu.registers._R[type(next(iter(ctx.cpu.registers._R))).PC]
+        if not any(lo <= pc_now < hi for lo, hi in known_code):
+            ls.bump('program_left_its_code')       # e.g. a handler's fixed return offset after a 32-bit slot: whatever lies there is not the program
+            stopped_early = True
+            break
         d2 = dict(desc, step=stepno)
         verdict, info, diffs, pre, post, ref = ls.run(ctx, d2)
         ls.res['sets']['itstates'].add(str((((pre['cpsr'] >> 10) & 0x3F) << 2) | ((pre['cpsr'] >> 25) & 3)))
